@@ -1,5 +1,6 @@
 import Mcp.Drv.Util
 import Mcp.Model.Schema
+import Mcp.Model.SchemaTags
 namespace Mcp.Drv.Schema
 open Lean Mcp.Drv Mcp.Str
 open Mcp.Schema hiding Json
@@ -119,7 +120,50 @@ def docFor (style : String) (env : Env) (T : GoType) : Except String Doc :=
   | "defs" => pure (genDefsDoc env T)
   | _ => throw s!"unknown style {style}"
 
+def jsonOfDefVal : DefVal → Json
+  | .str s => Json.str (Mcp.Str.toString s)
+  | .int i => Json.num ⟨i, 0⟩
+  | .num m e => Json.num ⟨m, e⟩
+  | .bool b => Lean.Json.bool b
+
+/-- the keywords as kin-openapi prints them (zero values omitted; `default` / `example` printed once set) -/
+def jsonOfTagKw (kw : TagKw) : Json :=
+  let txt (k : String) (v : Text) : List (String × Json) := if v.isEmpty then [] else [(k, Json.str (Mcp.Str.toString v))]
+  let num (k : String) (v : Option (Int × Nat)) : List (String × Json) := match v with | some (m, e) => [(k, Json.num ⟨m, e⟩)] | none => []
+  let nat0 (k : String) (v : Nat) : List (String × Json) := if v == 0 then [] else [(k, Json.num ⟨v, 0⟩)]
+  let natO (k : String) (v : Option Nat) : List (String × Json) := match v with | some n => [(k, Json.num ⟨n, 0⟩)] | none => []
+  Json.mkObj (txt "title" kw.title ++ txt "description" kw.description ++ txt "format" kw.format ++ txt "pattern" kw.pattern
+    ++ num "minimum" kw.minimum ++ num "maximum" kw.maximum ++ nat0 "minLength" kw.minLength ++ natO "maxLength" kw.maxLength
+    ++ nat0 "minItems" kw.minItems ++ natO "maxItems" kw.maxItems
+    ++ (if kw.enums.isEmpty then [] else [("enum", Json.arr (kw.enums.map (fun v => Json.str (Mcp.Str.toString v))).toArray)])
+    ++ (match kw.dflt with | some d => [("default", jsonOfDefVal d)] | none => [])
+    ++ (match kw.exmpl with | some v => [("example", Json.str (Mcp.Str.toString v))] | none => [])
+    ++ (if kw.uniqueItems then [("uniqueItems", Lean.Json.bool true)] else []))
+
+/-- `tags`: one field `F <kind> `json:"f" jsonschema:"<js>"`` — the keywords the tag parser leaves on its schema and
+    whether the struct generator of the style lists it as required. -/
+def handleTags (j : Json) : Except String Json := do
+  let js ← getText j "js"
+  let kind ← match (← getStr j "kind") with
+    | "str" => pure TagKind.str
+    | "int" => pure TagKind.int
+    | "float" => pure TagKind.float
+    | "bool" => pure TagKind.bool
+    | "arr" => pure TagKind.other
+    | k => throw s!"tags: unknown kind {k}"
+  let kw := tagKeywords kind js
+  if kw.unmodelled then throw "tags: a number literal outside the modelled grammar"
+  if kw.nonfinite then return Json.mkObj [("serialisable", Lean.Json.bool false)]
+  let m : FieldMeta := ⟨t!"F", t!"f", js, false⟩
+  let req ← match (← getStr j "style") with
+    | "inline" => pure (isRequired m false)
+    | "defs" => pure (isRequired m false)
+    | "nested" => pure (!nestedOmit m)
+    | s => throw s!"tags: unknown style {s}"
+  pure (Json.mkObj [("present", Lean.Json.bool true), ("kw", jsonOfTagKw kw), ("required", Lean.Json.bool req)])
+
 def handle (op : String) (j : Json) : Except String Json := do
+  if op == "tags" then return (← handleTags j)
   let env ← envOfJson j
   let T ← typeOfJson (← j.getObjVal? "t")
   match op with
